@@ -16,11 +16,13 @@ Definition chosen_entries (ch : list nat) (es : list entry) : list entry :=
 
 Definition runclass_eqb (a b : runclass) : bool :=
   match a, b with
-  | ROk, ROk | RCanceled, RCanceled | RNoAmmo, RNoAmmo | RErr, RErr | RHang, RHang => true
+  | ROk, ROk | RCanceled, RCanceled | RNoAmmo, RNoAmmo | RErr, RErr | RHang, RHang
+  | RRefused, RRefused => true
   | _, _ => false
   end.
 
 Definition is_rnoammo (r : runclass) : bool := match r with RNoAmmo => true | _ => false end.
+Definition is_rrefused (r : runclass) : bool := match r with RRefused => true | _ => false end.
 
 (* The executable specification of C14 on the IMPLEMENTATION's observations of the two
    providers (S = streaming, P = preload) built from the same file:
@@ -30,11 +32,13 @@ Definition is_rnoammo (r : runclass) : bool := match r with RNoAmmo => true | _ 
      (limit counts delivered entries), ending Ok with the sink closed — this is [spec_b] of C08
      over the chosen entries;
    - when nothing matches: nothing is delivered, the sink is closed and Run returns (nil or
-     "no ammo"), never spinning. *)
+     "no ammo"), never spinning; a file without entries may also be refused by the constructor
+     (both providers are built by the same constructor). *)
 Definition spec14_b (lim pas : nat) (es : list entry) (ch : list nat) (cancel : option nat)
            (obsS obsP : list nat) (clS clP : bool) (rcS rcP : runclass) : bool :=
   list_eqb obsS obsP && Bool.eqb clS clP && runclass_eqb rcS rcP &&
   match chosen_entries ch es with
-  | [] => (length obsS =? 0) && clS && (is_rok rcS || is_rnoammo rcS)
+  | [] => (length obsS =? 0) && clS
+          && (is_rok rcS || is_rnoammo rcS || (is_rrefused rcS && match es with [] => true | _ => false end))
   | src => spec_b lim pas src cancel true obsS clS rcS
   end.
